@@ -15,7 +15,7 @@
 -/
 import GoMC.Lemmas.NBTCarrier
 import GoMC.Lemmas.NBTField
-import GoMC.Lemmas.NBTRoundTrip
+import GoMC.Lemmas.NBTFragment
 namespace GoMC.Props.C02
 open GoMC GoMC.Rd GoMC.Model GoMC.Model.NBT GoMC.Model.Go GoMC.Lemmas.NBTDecode GoMC.Lemmas.NBTTyped
 open GoMC.Spec (NBT encPayload encList encKvs encDoc Format docName)
@@ -213,66 +213,111 @@ theorem C02_field_roundtrip (cx : SnbtCarrier) (allow : Bool) (ty : GoType) (v v
 
 /-! ### Unmarshal(Marshal(v)) == v
 
-`Plain τ ok val need` (Lemmas/NBTRoundTrip) describes the fragment of the type universe the induction covers and,
-for each type `τ` of it, the trees `ok` a variable of type `τ` stands for and the Go value `val t` of a tree:
-`bool`, `int8 … uint64`, `float32/64` (bit patterns, so NaN payloads and −0 included), `string` (≤ 32767 bytes),
-`[]int8 / []uint8 / []bool` (TagByteArray), `[]int32 / []uint32` (TagIntArray), `[]int64 / []uint64` (TagLongArray),
-`nbt.RawMessage`, `dynbt.Value`, and — nested to any depth — `[]τ` for every other `τ` (TagList),
-`map[string]τ` (keys ≤ 32767 bytes, pairwise different; the entries in any order) and struct types with a flat
-field table (`Shape`: what the model `typeFields` computes for the type is one entry per declared field, in
-order, without `omitempty` / `,list`; names given by tags or not; a fact about a concrete type that the tactic
-`flat_shape` discharges by evaluating `typeFields`, see `ex_plain`). The values are the ones a decoder produces:
-slices non-nil except an empty `[]int8` / `[]bool`, which a fresh variable keeps nil. -/
+`Plain τ k` (Lemmas/NBTFragment) describes the fragment of the type universe the induction covers and, for each
+type `τ` of it, its class `k`: the trees a variable of type `τ` stands for (`k.ok`), the Go value of a tree
+(`k.val`), and the canonical Go values of the type (`k.canon`). The fragment: `bool`, `int8 … uint64`,
+`float32/64` (bit patterns, so NaN payloads and −0 included), `string` (≤ 32767 bytes), the typed arrays
+`[]int8 / []uint8 / []bool` (TagByteArray), `[]int32 / []uint32` (TagIntArray), `[]int64 / []uint64`
+(TagLongArray) and `[n]T` of the same element types, `nbt.RawMessage`, `dynbt.Value`, `any`, and — nested to any depth —
+`[]τ` and `[n]τ` for every other `τ` (TagList), `map[string]τ` (keys ≤ 32767 bytes, pairwise different; the entries in
+any order), `*τ`, and struct types: field names from tags or not, `omitempty`, fields promoted from structs
+embedded by value (index paths of any length); what the model `typeFields` computes for the type is checked by
+evaluation for each concrete type (`Table`, `Sound`; tactics `field_table`, `each_field`; see `ex_plain`).
 
-/-- Round trip on the plain fragment, stated against the format: `Encode(val t, name)` is the document `name : t`
+Canonical values (`k.canon`), i.e. what "== v" is taken modulo:
+* integers in the range of their kind, every float bit pattern, strings ≤ 32767 bytes;
+* slices are non-nil — except an empty `[]int8` / `[]bool`, which a fresh variable keeps nil — and maps non-nil;
+  the elements of a slice of carriers all have one tag;
+* pointers are non-nil (`C02_nil_pointer_as_zero`: a nil pointer is written as the zero value it could point to —
+  wherever it stands — and therefore comes back as a pointer to zero; marker `C02.nil-pointer`);
+* an `omitempty` field holds a non-empty canonical value or exactly the zero value of its type (an empty non-nil
+  slice or map and −0.0 are "empty" for the encoder and come back as nil / +0);
+* fields outside the field table (unexported, `nbt:"-"`, hidden by the embedding rules) hold zero;
+* an `any` holds one of the dynamic types `Decode` builds (`int8`, `int16`, `int32`, `int64`, `float32`, `float64`,
+  `string`, `[]byte`, `[]int32`, `[]int64`, `[]any`, `map[string]any`, nested): the round trip of an interface holds
+  modulo that canonicalisation; inside an `any`, and in a `[]any`, a list must not have byte-, int- or long-sized
+  elements (such a `[]any` is written as a typed array: marker `C02.any-slice-array`). -/
+
+/-- Round trip on the fragment, stated against the format: `Encode(k.val t, name)` is the document `name : t`
 of the format, byte for byte, and `Decode` of that document — followed by anything, from a source fragmented in
-any way — into a fresh variable of type `τ` returns `val t` and the root name and consumes exactly the document.
-Hence `Unmarshal(Marshal(v)) == v` for every such `v = val t`. -/
-theorem C02_roundtrip_partial (cx : SnbtCarrier) {τ : GoType} {ok : NBT → Prop} {val : NBT → GoVal} {need : NBT → Nat}
-    (hτ : Plain τ ok val need) (disallow : Bool) (fmt : Format) (name : Bytes) (t : NBT)
-    (hname : name.length < 32768) (ht : ok t) :
-    encode cx (isNet fmt) name (some (val t)) = Res.ok (encDoc fmt name t) ∧
+any way — into a fresh variable of type `τ` returns `k.val t` and the root name and consumes exactly the document. -/
+theorem C02_roundtrip_partial (cx : SnbtCarrier) {τ : GoType} {k : Cls} (hτ : Plain τ k) (disallow : Bool)
+    (fmt : Format) (name : Bytes) (t : NBT) (hname : name.length < 32768) (ht : k.ok t) :
+    encode cx (isNet fmt) name (some (k.val t)) = Res.ok (encDoc fmt name t) ∧
     ∀ (s : Stream) (rest : Bytes), s.flat = encDoc fmt name t ++ rest →
-      ∃ s', decodeTyped cx (isNet fmt) disallow τ s = (Res.ok (val t, docName fmt name), s') ∧ s'.flat = rest ∧
+      ∃ s', decodeTyped cx (isNet fmt) disallow τ s = (Res.ok (k.val t, docName fmt name), s') ∧ s'.flat = rest ∧
         s'.failing = s.failing :=
   plain_roundtrip cx hτ disallow fmt name t hname ht
 
+/-- The value-side reading, `Unmarshal(Marshal(v)) == v`: for EVERY canonical value `v` of a type of the fragment,
+`Encode(v, name)` succeeds and writes a well-formed document of the format, and `Decode` of it (followed by
+anything) into a fresh variable of the type returns `v` itself and the root name, consuming exactly the document. -/
+theorem C02_roundtrip_value_partial (cx : SnbtCarrier) {τ : GoType} {k : Cls} (hτ : Plain τ k) (disallow : Bool)
+    (fmt : Format) (name : Bytes) (v : GoVal) (hname : name.length < 32768) (hv : k.canon v) :
+    ∃ t : NBT, t.WF ∧ encode cx (isNet fmt) name (some v) = Res.ok (encDoc fmt name t) ∧
+    ∀ (s : Stream) (rest : Bytes), s.flat = encDoc fmt name t ++ rest →
+      ∃ s', decodeTyped cx (isNet fmt) disallow τ s = (Res.ok (v, docName fmt name), s') ∧ s'.flat = rest ∧
+        s'.failing = s.failing :=
+  plain_roundtrip_value cx hτ disallow fmt name v hname hv
+
+/-- What Go gives for a nil pointer: at every position — the root, a struct field (without `omitempty`), a slice
+element, a map value all go through `getTagType` — `Encode` treats `(*T)(nil)` exactly as a pointer to the zero
+value of `T`. -/
+theorem C02_nil_pointer_as_zero (cx : SnbtCarrier) (f : Nat) (e : GoType) :
+    getTagType cx (f + 1) (.ptr e none) = getTagType cx (f + 1) (.ptr e (some e.zero)) :=
+  getTagType_nil_ptr cx f e
+
 /-- the same through `packet.NBTField`: `WriteTo` writes the network-format document and reports its length,
 `ReadFrom` into a fresh variable returns the value and the same count -/
-theorem C02_field_roundtrip_plain (cx : SnbtCarrier) {τ : GoType} {ok : NBT → Prop} {val : NBT → GoVal} {need : NBT → Nat}
-    (hτ : Plain τ ok val need) (allow : Bool) (t : NBT) (ht : ok t) (s : Stream) (rest : Bytes)
-    (hs : s.flat = encDoc .network [] t ++ rest) :
-    fieldWrite cx (some (val t)) = Res.ok (encDoc .network [] t, (encDoc .network [] t).length) ∧
-    ∃ s', fieldRead cx allow τ τ.zero s = (Res.ok (val t, (encDoc .network [] t).length), s') ∧ s'.flat = rest := by
+theorem C02_field_roundtrip_plain (cx : SnbtCarrier) {τ : GoType} {k : Cls} (hτ : Plain τ k) (allow : Bool) (t : NBT)
+    (ht : k.ok t) (s : Stream) (rest : Bytes) (hs : s.flat = encDoc .network [] t ++ rest) :
+    fieldWrite cx (some (k.val t)) = Res.ok (encDoc .network [] t, (encDoc .network [] t).length) ∧
+    ∃ s', fieldRead cx allow τ τ.zero s = (Res.ok (k.val t, (encDoc .network [] t).length), s') ∧ s'.flat = rest := by
   obtain ⟨henc, hdec⟩ := plain_roundtrip cx hτ (!allow) .network [] t (by simp) ht
   obtain ⟨s', hd, hr, _⟩ := hdec s rest hs
-  have := GoMC.Lemmas.NBTField.field_roundtrip cx allow τ (val t) (val t) _ rest _ s s' henc hs hd hr
+  have := GoMC.Lemmas.NBTField.field_roundtrip cx allow τ (k.val t) (k.val t) _ rest _ s s' henc hs hd hr
   exact ⟨this.1, s', this.2, hr⟩
 
-/-- the fragment is not empty and nests: `map[string][][]int32`, `[]nbt.RawMessage`, `map[string][]string`, and
-`type Ex struct { A int32 `nbt:"a"`; B []string; In struct { X, Y float64 } `nbt:"in"`; M map[string][]int64 }`,
-for which the theorem reads: -/
-example : (∃ ok val need, Plain (.map (.slice (.slice (.int .i32)))) ok val need) ∧
-    (∃ ok val need, Plain (.slice .raw) ok val need) ∧ (∃ ok val need, Plain (.map (.slice .str)) ok val need) :=
-  ⟨⟨_, _, _, .map (.slice .nums_i32 rfl)⟩, ⟨_, _, _, .slice .raw rfl⟩, ⟨_, _, _, .map (.slice .str rfl)⟩⟩
+/-- the fragment is not empty and nests: `map[string][][]int32`, `[]nbt.RawMessage`, `map[string][]*string`,
+`[3][2]int16`, `map[string]any`, `[]any`, and the struct type of `ex_plain`
 
-example (cx : SnbtCarrier) (name : Bytes) (t : NBT) (hname : name.length < 32768) (ht : okStruct exSpecs t) :
-    encode cx false name (some (valStruct [69, 120] exFields exSpecs t)) = Res.ok (encDoc .file name t) :=
+    type Pos struct { X, Y float64 }
+    type Ex struct {
+        A    int32  `nbt:"a"`
+        B    []string `nbt:",omitempty"`
+        Pos                                  // embedded by value
+        Next *Pos   `nbt:"next,omitempty"`
+        U    [4]int32
+        M    map[string][]int64
+    }
+
+for which the theorems read: -/
+example : (∃ k, Plain (.map (.slice (.slice (.int .i32)))) k) ∧ (∃ k, Plain (.slice .raw) k) ∧
+    (∃ k, Plain (.map (.slice (.ptr .str))) k) ∧ (∃ k, Plain (.array 3 (.array 2 (.int .i16))) k) ∧
+    (∃ k, Plain (.map .iface) k) ∧ (∃ k, Plain (.slice .iface) k) :=
+  ⟨⟨_, .map (.slice .nums_i32 (by simp [stripPtrs]) rfl rfl)⟩, ⟨_, .slice .raw (by simp [stripPtrs]) rfl rfl⟩,
+   ⟨_, .map (.slice (.ptr .str) (by simp [stripPtrs]) rfl rfl)⟩,
+   ⟨_, .array 3 (.array 2 .i16 (by simp [stripPtrs]) rfl rfl) (by simp [stripPtrs]) rfl rfl⟩,
+   ⟨_, .map .any⟩, ⟨_, .slice_any⟩⟩
+
+example (cx : SnbtCarrier) (name : Bytes) (t : NBT) (hname : name.length < 32768)
+    (ht : (Cls.struct [69, 120] exFields exSpecs).ok t) :
+    encode cx false name (some ((Cls.struct [69, 120] exFields exSpecs).val t)) = Res.ok (encDoc .file name t) :=
   (C02_roundtrip_partial cx ex_plain false .file name t hname ht).1
 
 /- OPEN: C02_roundtrip (the whole universe).
    Not covered by the induction above, and why:
-   * struct types whose field table is not flat (embedded structs promoted through index paths, `omitempty`,
-     `,list`, unexported / `nbt:"-"` fields — which are skipped, so the value does not come back): the decoder's
-     per-key lookup and the encoder's walk over `typeFields τ` are modelled and tied to the code by T2 (`c02.tf`,
-     `c02.rt`), but not in the induction;
-   * pointers and non-empty interfaces: `Decode` allocates, `Encode` follows — not an inverse pair on nil pointers
-     (design decision, marker `C02.nil-pointer`: a nil `*T` is written as the zero value of `T` and read back
-     non-nil);
-   * `[N]T` arrays; `[]any` / `map[string]any` and `any` fields (the decoder picks its own dynamic types:
-     marker `C02.any-slice-array`);
+   * struct types with fields promoted through an embedded POINTER to a struct (a nil embedded pointer makes the
+     encoder skip the promoted fields, the decoder allocates it at the first promoted key: the correspondence of
+     trees and values needs a case distinction per embedded pointer), with `,list`, and types whose table hides
+     fields (unexported / `nbt:"-"` / annihilated by the embedding rules: such a field does not come back — the
+     round trip holds for the values that are zero there, which is what `k.canon` says for the covered types);
+   * interfaces holding anything but the dynamic types `Decode` builds (an `any` holding a `uint16`, a struct, a
+     pointer … comes back as `int16`, `map[string]any`, the pointee), non-empty interfaces (`fmt.Stringer` fields),
+     and a `[]any` whose first element is byte-, int- or long-sized (design decision, marker `C02.any-slice-array`);
+   * nil pointers are covered by `C02_nil_pointer_as_zero` (marker `C02.nil-pointer`), not by a round trip;
    * `int` / `uint` (no tag; `Encode` refuses them), strings over 32767 bytes (refused), `StringifiedMessage`
-     (its codec is the SNBT work package's; opaque here).
+     (its codec is the SNBT work package's; opaque here); recursive types (outside the universe: `c02.odd`).
    Every one of these classes is in the value generator of the correspondence run, with the observable compared
    by the executable model (bytes, decoded value, root name, argument unchanged, outcome). -/
 
